@@ -93,7 +93,7 @@ def insert_into_labels(body):
 def run(facts, rep, ctx):
     E = Evaluator(facts)
     accessors = []
-    for b in facts.bodies.values():
+    for b in facts.views():
         if b.kind != "AssocFn" or not b.pub or not b.name.startswith(ARCHIVE + "::"):
             continue
         if b.self_ty not in ("&bin_archive::BinArchive", "&mut bin_archive::BinArchive"):
@@ -257,7 +257,7 @@ def run(facts, rep, ctx):
 
     # R04.4 endian table
     R4 = rep.rule("R04.4", "Endian::{encode,decode}_T dispatch: Little -> {to,from}_le_bytes, Big -> {to,from}_be_bytes of type T", floor=20)
-    for b in sorted(facts.bodies.values(), key=lambda b: b.name):
+    for b in sorted(facts.views(), key=lambda b: b.name):
         m = re.match(r"mila::endian_aware_io::Endian::(encode|decode)_(\w+)$", b.name)
         if not m or not b.pub:
             continue
@@ -410,7 +410,7 @@ def stream_rules(facts, rep, E):
     R7 = rep.rule("R04.7", "stream reader/writer methods: delegate to the positional accessor at self.position and advance the cursor by exactly its width on success only (label access: no movement)", floor=25)
     for cls in ("BinArchiveReader", "BinArchiveWriter"):
         prefix = "mila::bin_streams::%s::<'a>::" % cls
-        for b in sorted(facts.bodies.values(), key=lambda b: b.name):
+        for b in sorted(facts.views(), key=lambda b: b.name):
             if not b.name.startswith(prefix) or not b.pub or b.kind != "AssocFn":
                 continue
             short = b.name[len(prefix):]
